@@ -263,6 +263,8 @@ def _pos_fqn(spec: list) -> str:
         return "0-0"
     if spec[0] == "xml":
         return spec[2]
+    if spec[0] == "whole":
+        return "(entire source)"
     raise AssertionError(spec)
 
 
@@ -375,7 +377,7 @@ def check_origins(data: dict, lab: Labels) -> None:
     for s, o in zip(specs, objs):
         if s[0] == "code":
             require(o.get_raw() == og.TEXTS[s[1]][s[2]:s[3]], "get_raw", s)
-        if s[0] in ("gen", "xml", "no"):
+        if s[0] in ("gen", "xml", "no", "whole"):
             require(o.get_raw() is None, "get_raw-none", s)
         require(o.fqn == model_fqn(s), "fqn-operand", f"{s}: {o.fqn!r}")
 
